@@ -337,6 +337,20 @@ func (A *audit) diffNonNegCtx(fn *ssa.Function, lt *Term, fs factSet, depth int)
 	})
 }
 
+// geCtx: the integer term is >= 0 under the facts here, or (for a term over
+// the parameters of an unexported helper) at every caller.
+func (A *audit) geCtx(fn *ssa.Function, t *Term, fs factSet, depth int) bool {
+	if A.P.proveGE0(t, fs) {
+		return true
+	}
+	if !t.contains(func(u *Term) bool { return u.Op == "param" }) {
+		return false
+	}
+	return A.atAllCallers(fn, depth, func(caller *ssa.Function, cfs factSet, m map[string]*Term, d int) bool {
+		return A.geCtx(caller, t.subst(m), cfs, d)
+	})
+}
+
 // wellformedCtx: ok(mode.Wellformed(xt)) holds here or at every caller.
 func (A *audit) wellformedCtx(fn *ssa.Function, xt *Term, fs factSet, depth int) bool {
 	for _, call := range fs.findOK(func(call *Term) bool { return call.S == "invoke:cbor.DecMode.Wellformed" }) {
@@ -507,6 +521,20 @@ func (A *audit) sliceSafe(s *ssa.Slice) (bool, string) {
 			return true, "bound is len of the same slice"
 		}
 		return false, fmt.Sprintf("bound %s is not related to len(%s)", bt, xt)
+	}
+	// linear reasoning over the dominating comparisons: 0 <= lo <= hi <= len
+	{
+		lo, hi := tInt(0), tLen(xt)
+		if s.Low != nil {
+			lo = P.terms.of(s.Low)
+		}
+		if s.High != nil {
+			hi = P.terms.of(s.High)
+		}
+		fn := s.Parent()
+		if A.geCtx(fn, lo, fs, 0) && A.geCtx(fn, tSub(hi, lo), fs, 0) && A.geCtx(fn, tSub(tLen(xt), hi), fs, 0) {
+			return true, fmt.Sprintf("0 <= %s <= %s <= len follows from the dominating comparisons", truncate(lo.String(), 40), truncate(hi.String(), 40))
+		}
 	}
 	// with only one bound present lo <= hi reduces to bound <= len; with both
 	// present and both symbolic we require constants
@@ -767,7 +795,12 @@ func runC06(r *Report, tier string) {
 							okLen, why = true, "length "+lt.String()+" under the dominating comparison of its operands"
 						}
 					}
-					if okLen && in.Cap != in.Len {
+					if !okLen && A.geCtx(fn, lt, fs, 0) {
+						okLen, why = true, "length "+lt.String()+" >= 0 follows from the dominating comparisons"
+					}
+					if okLen && in.Cap != in.Len && A.geCtx(fn, tSub(P.terms.of(in.Cap), lt), fs, 0) {
+						// capacity >= length by the same reasoning
+					} else if okLen && in.Cap != in.Len {
 						ct := P.terms.of(in.Cap)
 						// cap must be >= len: len = cap - x with x >= 0
 						if !(lt.Op == "binop" && lt.S == "-" && lt.Args[0].eq(ct) && nonNeg(lt.Args[1])) && !ct.eq(lt) {
